@@ -51,6 +51,17 @@ func (ex *Exec) callFn(st *State, fr *Frame, x *ssa.Call, fn *ssa.Function, bind
 			c, key = wc, "*."+fn.Name()
 		}
 	}
+	if c == nil && len(ex.P.CS.Instances[key]) > 0 {
+		var pnames []string
+		for _, p := range fn.Params {
+			pnames = append(pnames, p.Name())
+		}
+		var tp *types.Package
+		if fn.Pkg != nil {
+			tp = fn.Pkg.Pkg
+		}
+		c, key = ex.resolveInstance(st, key, pnames, args, tp)
+	}
 	if fn.Parent() != nil || (c != nil && c.Inline) {
 		if fn.Blocks == nil {
 			ex.reject("inline of function without body: %s", key)
@@ -106,7 +117,7 @@ func (ex *Exec) pushFrame(st *State, fn *ssa.Function, bind []Val, args []Val, r
 	}
 	for i, p := range fn.Params {
 		nf.Vals[p] = args[i]
-		nf.Names[p.Name()] = nameRef{V: args[i]}
+		nf.Names[p.Name()] = nameRef{V: args[i], Typ: p.Type()}
 	}
 	st.Frames = append(st.Frames, nf)
 }
@@ -281,6 +292,11 @@ func (ex *Exec) applyContract(st *State, fr *Frame, x *ssa.Call, c *Contract, ke
 		rv := ex.symVal(st, fmt.Sprintf("r%d_%s_%d", i, short, ex.nfreshNext()), results.At(i).Type(), 1)
 		ex.resultMode = false
 		ex.Inputs = save
+		if ek := c.Options["errorkind"]; ek != "" {
+			if iv, ok := rv.(IfaceV); ok && iv.Sym != nil {
+				iv.Sym.PanicKind = ek
+			}
+		}
 		rets = append(rets, rv)
 		nm := "result"
 		if results.Len() > 1 {
